@@ -186,6 +186,68 @@ class Spelling(Part):
         return None
 
 
+class NsScope(Part):
+    """A prefix bound to a template namespace on an element is bound inside
+    that element only - also when the element contains start tags that are
+    never closed (HTML void elements).  After the element the prefix is an
+    ordinary, undeclared one: with restricted_namespace=False its attributes
+    are preserved as written."""
+    name = "nsscope"
+    examples = {"quick": 200, "thorough": 5000}
+
+    def strategy(self, tier):
+        void = st.sampled_from(["<br>", "<hr>", '<img src="x">', "<br >",
+                                '<input xmlns:u="urn:u" u:a="1">',
+                                '<br xmlns:t2="%s">' % TEMPLATE_URIS[0]])
+        return st.fixed_dictionaries({
+            "prefix": st.sampled_from(["t", "tal3", "x"]),
+            "voids": st.lists(void, max_size=3),
+            "voids_after_inner": st.lists(void, max_size=2),
+            "depth": st.integers(0, 2),
+            "own_decl_after": st.booleans(),
+        })
+
+    def build(self, case):
+        p = case["prefix"]
+        uri = TEMPLATE_URIS[0]
+        strip = lambda s: s.replace(' xmlns:t2="%s"' % uri, "")  # noqa: E731
+        inner_src = "".join(case["voids"]) + \
+            "<i %s:content=\"'in'\">x</i>" % p + \
+            "".join(case["voids_after_inner"])
+        inner_out = strip("".join(case["voids"])) + "<i>in</i>" + \
+            strip("".join(case["voids_after_inner"]))
+        for _ in range(case["depth"]):
+            inner_src = "<b>" + inner_src + "</b>"
+            inner_out = "<b>" + inner_out + "</b>"
+        src = '<div><p xmlns:%s="%s">%s</p>' % (p, uri, inner_src)
+        out = "<div><p>%s</p>" % inner_out
+        after = "<i %s:content=\"'out'\">b</i>" % p
+        src += after
+        out += after
+        if case["own_decl_after"]:
+            src += '<i xmlns:%s="%s" %s:content="\'ok\'">c</i>' % (p, uri, p)
+            out += "<i>ok</i>"
+        return src + "</div>", out + "</div>"
+
+    def nontrivial(self, case):
+        return bool(case["voids"] or case["voids_after_inner"])
+
+    def labels(self, case):
+        if case["voids"] or case["voids_after_inner"]:
+            yield "unclosed_start_tags"
+
+    def sample(self, case):
+        return {"source": self.build(case)[0]}
+
+    def oracle(self, case):
+        src, want = self.build(case)
+        got = render(src, {"restricted_namespace": False}, {})
+        if got != ("out", want):
+            return Mismatch("nsscope:differs", {"source": src, "got": got,
+                                                "expected": want})
+        return None
+
+
 class DataOff(Part):
     """With enable_data_attributes off, data-tal-* is ordinary markup."""
     name = "dataoff"
@@ -235,7 +297,7 @@ CHECK = Check(
           "data- attributes for a random subset of each element's statements, "
           "default with the data option on); non-trivial = an element with "
           ">= 2 statements and a foreign attribute present; distinct by sha1"),
-    parts=[Spelling(), DataOff()],
+    parts=[Spelling(), DataOff(), NsScope()],
     assumptions=[
         "only the TAL namespace is re-spelled here; METAL and I18N "
         "re-spellings are part of C09 / C10",
